@@ -432,7 +432,9 @@ Definition seg_batch (fkeep : bool) (acc : sstate * halves) (qsp : N * split) : 
   | KWholeC => (s, add_half true (bc_iat b) q h)
   | KWholeD => (s, add_half false (bc_iat b) q h)
   | KSplit =>
-      let s0 := if bc_iat b then reset_traces s (bc_ents b) else s in
+      (* fix 66a624ee: the trace numbers are cleared only when build will assign new ones, i.e. unless the
+         merged options (file's and batch's) hold BypassOriginValidation or CustomTraceNumbers *)
+      let s0 := if bc_iat b && negb (fkeep || bc_keep b) then reset_traces s (bc_ents b) else s in
       let ces := picks (bc_ents b) (sp_c sp) in
       let des := picks (bc_ents b) (sp_d sp) in
       (* both new batches are filled first, then creditBatch.Create(), then debitBatch.Create() *)
